@@ -3,6 +3,7 @@ import RV.C05.StrLemmas
 import RV.C05.IriLemmas
 import RV.C05.Tables
 import RV.C05.Utf8Lemmas
+import RV.C05.NtParserLemmas
 /-
   C05 — property statements (each first as `def Statement_… : Prop`, at full strength) and theorems.
 
@@ -194,5 +195,123 @@ example : [[0xC0, 0x80], [0xE0, 0x80, 0x80], [0xED, 0xA0, 0x80], [0xF4, 0x90, 0x
   decide
 example : Utf8.handed .nt .file [0xFEFF, 0x3C] = some [0xFEFF, 0x3C] ∧
     Utf8.handed .trig .bytes [0xFEFF, 0x3C] = some [0x3C] := by decide
+
+/-! ### round g: rdflib's N-Triples / N-Quads PARSER (RV/C05/NtParser.lean = ntriples.py `W3CNTriplesParser.parseline`,
+    `subject` `predicate` `object` `uriref` `nodeid` `literal` `eat` `peek`, the regular expressions `r_wspace r_uriref
+    r_nodeid r_literal r_tail`, `unquote`/`uriquote`, compat.py `decodeUnicodeEscape`; nquads.py `parseline`) -/
+
+/-- Every line the strict reader of the W3C N-Triples grammar accepts — as a triple, or as an empty / comment line — the
+    model of rdflib's `parseline` reads the same way: same triple (IRIs and strings unescaped to the same code points,
+    same blank-node label, same language tag / datatype), nothing raised.  (`'\n' ∉ line`: `readline` never returns a
+    line containing LF, and `.` in `r_tail`'s comment does not match one.) -/
+def Statement_ntparser_refines_reference : Prop :=
+  ∀ (line : Str) (r : Option Triple), '\n' ∉ line → NT.parseLine line = some r →
+    Py.ntParseline line = .ok (r.map codeTriple)
+
+/-- the same for N-Quads: graph label read as the same term, absent iff the statement has none -/
+def Statement_nqparser_refines_reference : Prop :=
+  ∀ (line : Str) (r : Option Quad), '\n' ∉ line → NQ.parseLine line = some r →
+    Py.nqParseline line = .ok (r.map codeQuad)
+
+theorem ntparser_refines_reference : Statement_ntparser_refines_reference :=
+  fun line r hnl h => ntParseline_refines line r hnl h
+
+theorem nqparser_refines_reference : Statement_nqparser_refines_reference :=
+  fun line r hnl h => nqParseline_refines line r hnl h
+
+/-- Whole documents, no side condition: whatever document the strict reader accepts ([1] ntriplesDoc, lines cut at every
+    CR / LF [7]), the model of `W3CNTriplesParser.parse` — `readline` cutting at CR LF | CR | LF, parsing a last line without
+    line end, dropping one that is white space only, then `parseline` per line — hands the same triples to the sink, in order. -/
+def Statement_ntparser_doc_refines_reference : Prop :=
+  ∀ (doc : Str) (ts : List Triple), NT.parseDoc doc = some ts → Py.ntParse doc = .ok (ts.map codeTriple)
+
+def Statement_nqparser_doc_refines_reference : Prop :=
+  ∀ (doc : Str) (qs : List Quad), NQ.parseDoc doc = some qs → Py.nqParse doc = .ok (qs.map codeQuad)
+
+theorem ntparser_doc_refines_reference : Statement_ntparser_doc_refines_reference := ntParse_refines
+
+theorem nqparser_doc_refines_reference : Statement_nqparser_doc_refines_reference := nqParse_refines
+
+/-- writer and parser of rdflib, both as modelled, composed: the document `_nt_row` writes for any list of legal triples
+    (every literal content) is read back by `parse()` as exactly those triples -/
+def Statement_nt_write_parse_roundtrip : Prop :=
+  ∀ (ts : List Triple), (∀ t ∈ ts, legalTriple t = true) → Py.ntParse (ntDoc ts) = .ok (ts.map codeTriple)
+
+theorem nt_write_parse_roundtrip : Statement_nt_write_parse_roundtrip :=
+  fun ts h => ntParse_refines (ntDoc ts) ts (nt_doc_valid ts h)
+
+/-- document-level leniency: a last line without line end that `str.isspace()` (here U+00A0, U+3000) is dropped by
+    `readline`; the grammar has no such line.  CR LF, by contrast, is read alike (one line end / an empty line in between). -/
+def Statement_ntparser_doc_lenient : Prop :=
+  NT.parseDoc ("<a:s> <a:p> <a:o> .\r\n".toList ++ [Char.ofNat 0xA0, Char.ofNat 0x3000]) = none ∧
+  Py.ntParse ("<a:s> <a:p> <a:o> .\r\n".toList ++ [Char.ofNat 0xA0, Char.ofNat 0x3000]) =
+    .ok [(.iri (Py.code "a:s".toList), .iri (Py.code "a:p".toList), .iri (Py.code "a:o".toList))] ∧
+  Py.ntParse ("<a:s> <a:p> <a:o> .\r\n".toList ++ [Char.ofNat 0xA0, '\n']) = .error .parse
+
+theorem ntparser_doc_lenient : Statement_ntparser_doc_lenient :=
+  ⟨by decide +kernel, by decide +kernel, by decide +kernel⟩
+
+/-- non-vacuity: one legal line with UCHAR in the IRI, ECHAR + `\u` + `\U` in the string, a language tag with subtags,
+    a dotted blank-node label as graph name, no white space where none is needed, and a comment -/
+example :
+    NQ.parseLine "<http://a/\\u00e9>\t<a:p>\"x\\n\\\"\\u00E9\\U0001F600\"@en-Latn-1 _:b.1.# c".toList =
+      some (some (.iri "http://a/é".toList, .iri "a:p".toList, .lang "x\n\"é😀".toList "en-Latn-1".toList,
+        some (.bnode "b.1".toList))) ∧
+    Py.nqParseline "<http://a/\\u00e9>\t<a:p>\"x\\n\\\"\\u00E9\\U0001F600\"@en-Latn-1 _:b.1.# c".toList =
+      .ok (some (.iri (Py.code "http://a/é".toList), .iri (Py.code "a:p".toList),
+        .lit (Py.code "x\n\"é😀".toList) (some (Py.code "en-Latn-1".toList)) none,
+        some (.bnode (Py.code "b.1".toList)))) := ⟨by decide +kernel, by decide +kernel⟩
+
+/-- What rdflib's parser accepts BEYOND the grammar (the strict reader rejects each of these lines, the model of
+    `parseline` — like the code — hands a triple to the sink).  All of it is token-level:
+    1 IRIREF may contain `{ } | ^ backquote` raw (the regular expression only excludes #x00-#x20 `< > "`);
+    2 ECHAR escapes are decoded inside IRIs too (`\n` gives an IRI containing a line feed);
+    3 a backslash that starts no ECHAR / UCHAR stays, with what follows it (`\x`, `\u12`, a last `\` before `>`), in IRIs
+      and in strings;
+    4 "absolute" means "contains a colon" (`<:a>`), not "starts with a scheme";
+    5 `\uD800`: a lone surrogate is accepted (the term then is no RDF term);
+    6 the empty datatype `^^<>` is dropped: a plain literal.
+    The line structure (white space, final dot, comment), blank-node labels and language tags are exactly the grammar's. -/
+def lenientForms : List (String × Py.PTriple) :=
+  let s := Py.PTerm.iri (Py.code "a:s".toList)
+  let p := Py.PTerm.iri (Py.code "a:p".toList)
+  [ ("<a:s> <a:p> <http://a/{b}|^`> .", (s, p, .iri (Py.code "http://a/{b}|^`".toList))),
+    ("<a:s> <a:p> <http://a/\\n\\t> .", (s, p, .iri (Py.code "http://a/\n\t".toList))),
+    ("<a:s> <a:p> <http://a/\\x\\u12\\> .", (s, p, .iri (Py.code "http://a/\\x\\u12\\".toList))),
+    ("<a:s> <a:p> \"\\x\\U0000004\\ \" .", (s, p, .lit (Py.code "\\x\\U0000004\\ ".toList) none none)),
+    ("<a:s> <a:p> <:a> .", (s, p, .iri (Py.code ":a".toList))),
+    ("<a:s> <a:p> \"\\uD800\" .", (s, p, .lit [0xD800] none none)),
+    ("<a:s> <a:p> \"x\"^^<> .", (s, p, .lit (Py.code "x".toList) none none)) ]
+
+/-- class 1 in general: the IRIREF token rdflib's parser eats is exactly a run of characters other than #x00-#x20 `<` `>` `"`
+    up to the next `>` — [8] IRIREF without its exclusion of `{ } | ^ backquote` and with the backslash as an ordinary character
+    (what `unquote` then makes of it is `Py.decodeAux`) -/
+def Statement_ntparser_iriref_token : Prop :=
+  ∀ (cs u rest : Str), Py.matchUriref ('<' :: cs) = some (u, rest) ↔ (u.all Py.uriChar = true ∧ cs = u ++ '>' :: rest)
+
+theorem ntparser_iriref_token : Statement_ntparser_iriref_token := matchUriref_iff
+
+def Statement_ntparser_lenient_forms : Prop :=
+  ∀ e ∈ lenientForms, NT.parseLine e.1.toList = none ∧ Py.ntParseline e.1.toList = .ok (some e.2)
+
+theorem ntparser_lenient_forms : Statement_ntparser_lenient_forms := by
+  intro e he
+  have h : (lenientForms.all fun e =>
+      decide (NT.parseLine e.1.toList = none) && decide (Py.ntParseline e.1.toList = .ok (some e.2))) = true := by decide +kernel
+  simpa using List.all_eq_true.mp h e he
+
+/-- … and what it refuses in another way than by `ParseError`: `chr()` of a `\U` escape above 10FFFF raises ValueError,
+    above 7FFFFFFF OverflowError — neither is caught by `parse()`, which wraps only `ParseError` — while a malformed
+    line proper raises `ParseError` (here: relative IRI, dangling `@`, a second dot after `_:o.` = label `o` + the final dot) -/
+def Statement_ntparser_error_kinds : Prop :=
+  Py.ntParseline "<a:s> <a:p> \"\\U00110000\" .".toList = .error .value ∧
+  Py.ntParseline "<a:s> <a:p> <http://a/\\UFFFFFFFF> .".toList = .error .overflow ∧
+  Py.ntParseline "<a:s> <a:p> <rel> .".toList = .error .parse ∧
+  Py.ntParseline "<a:s> <a:p> \"x\"@ .".toList = .error .parse ∧
+  Py.ntParseline "<a:s> <a:p> _:o. .".toList = .error .parse ∧
+  Py.ntParseline "<a:s> _:p <a:o> .".toList = .error .parse
+
+theorem ntparser_error_kinds : Statement_ntparser_error_kinds :=
+  ⟨by decide +kernel, by decide +kernel, by decide +kernel, by decide +kernel, by decide +kernel, by decide +kernel⟩
 
 end RV.C05
